@@ -57,7 +57,7 @@ TBS = ["lexico", "app_score", "min_cost", "max_cost", "custom"]
 
 
 def budget(tier):
-    return 1500 if tier == "quick" else 24000
+    return 3000 if tier == "quick" else 24000
 
 
 # ----------------------------------------------------------------------------------------------
@@ -88,7 +88,32 @@ def _budget_for(rng, costs):
 
 
 def gen(rng, i, tier):
-    shape = rng.choice(["random", "random", "party", "party", "dups"])
+    """rejection sampling on the python money trace: most cases buy something; a quarter is steered
+    towards a stop at which only SOME of the due projects overshoot (the stop rule under ties)"""
+    want = rng.random()
+    best = None
+    for attempt in range(8):
+        c = _draw(rng, "party" if want < 0.25 and attempt < 7 else None)
+        classes = [[sorted(b), 1] for b in c["ballots"]]
+        loads = c["loads"] if c["loads"] is not None else ["0/1"] * len(classes)
+        _, tr = money(c, classes, loads)
+        if best is None:
+            best = c
+        if want < 0.25:
+            if tr["stop_mixed"]:
+                return c
+            if tr["bought"]:
+                best = c
+        elif want < 0.9:
+            if tr["bought"]:
+                return c
+        else:
+            return c
+    return best
+
+
+def _draw(rng, shape=None):
+    shape = shape or rng.choice(["random", "random", "party", "party", "dups", "dups"])
     m = rng.choice([0, 1, 2, 3, 3, 4, 4, 5, 5, 6, 7])
     resolute = rng.random() < 0.6
     if not resolute:
@@ -142,7 +167,7 @@ def gen(rng, i, tier):
         # one project dearer than the whole budget
         j = rng.randrange(m)
         costs[j] = pb.qs(b + rng.choice([1, Fraction(1, 2), 3]))
-    multi = rng.random() < 0.5
+    multi = rng.random() < 0.6
     lm = rng.random()
     if lm < 0.4:
         loads = None
